@@ -1,5 +1,258 @@
-use crate::common::Ctx;
-pub fn run(_ctx: &Ctx, _replay: Option<&serde_json::Value>) -> i32 {
-    eprintln!("not implemented");
-    2
+//! C13 — via / where / into agree with map / filter / application for every function.
+
+use crate::alpha::*;
+use crate::common::*;
+use serde_json::{Value as J, json};
+
+const PRELUDE: &str = r#"
+k = 10
+inc = x => x + 1
+add = (x, y) => x + y
+opt = (x, i?) => [x, i]
+rest = (...r) => r
+clo = x => x + k
+curried = x => y => x + y
+fact = n => if n <= 1 then 1 else n * fact(n - 1)
+ev = n => if n <= 0 then true else od(n - 1)
+od = n => if n <= 0 then false else ev(n - 1)
+count_down = (n, i) => if n <= 0 then i else count_down(n - 1, i)
+pos = x => x > 0
+isnum = x => typeof(x) == "number"
+nonbool = x => x
+partial = x => if x > 2 then nope else x
+idx_even = (x, i) => i % 2 == 0
+rec_pred = n => if n <= 0 then true else if n == 1 then false else rec_pred(n - 2)
+tostr = x => to_string(x)
+wrap = x => [x]
+two = (a, b) => [a, b]
+radd = (a, x) => a + x
+r3 = (a, x, i) => a + x * i
+ropt = (a, x, i?) => [a, x, i]
+rrest = (...r) => r
+rrec = (a, x) => if x <= 0 then a else rrec(a + 1, x - 1)
+"#;
+
+/// (name or expression, arity class: how many positional arguments it accepts up to 3)
+struct F {
+    src: &'static str,
+    accepts: [bool; 4], // accepts[n] = can be called with n arguments
+}
+
+fn unary_funcs() -> Vec<F> {
+    let f = |src, a1, a2, a3| F { src, accepts: [false, a1, a2, a3] };
+    vec![
+        f("inc", true, false, false),
+        f("add", false, true, false),
+        f("opt", true, true, false),
+        f("rest", true, true, true),
+        f("clo", true, false, false),
+        f("curried", true, false, false),
+        f("fact", true, false, false),
+        f("ev", true, false, false),
+        f("od", true, false, false),
+        f("count_down", false, true, false),
+        f("pos", true, false, false),
+        f("isnum", true, false, false),
+        f("nonbool", true, false, false),
+        f("partial", true, false, false),
+        f("idx_even", false, true, false),
+        f("rec_pred", true, false, false),
+        f("tostr", true, false, false),
+        f("wrap", true, false, false),
+        f("two", false, true, false),
+        f("(x => x * 2)", true, false, false),
+        f("((x, i) => x + i)", false, true, false),
+        f("sqrt", true, false, false),
+        f("round", true, true, false),
+        f("max", true, true, true),
+        f("range", true, true, false),
+        f("typeof", true, false, false),
+        f("to_string", true, false, false),
+        f("abs", true, false, false),
+        f("len", true, false, false),
+        f("sum", true, true, true),
+        f("5", false, false, false),
+        f("nothing_bound", false, false, false),
+    ]
+}
+
+fn fold_funcs() -> Vec<F> {
+    let f = |src, a2, a3| F { src, accepts: [false, false, a2, a3] };
+    vec![
+        f("radd", true, false),
+        f("r3", false, true),
+        f("ropt", true, true),
+        f("rrest", true, true),
+        f("rrec", true, false),
+        f("max", true, true),
+        f("add", true, false),
+        f("two", true, false),
+        f("((a, x) => a * 2 + x)", true, false),
+        f("inc", false, false),
+    ]
+}
+
+fn lists(thorough: bool) -> Vec<Vec<RV>> {
+    let alpha = vec![RV::Num(0.0), RV::Num(1.0), RV::Num(3.0), RV::Num(-2.0), RV::s("a"), RV::Null];
+    let mut v = words(&alpha, if thorough { 4 } else { 3 });
+    let ext: Vec<RV> = vec![RV::Num(4.0), RV::Num(1.0), RV::Num(-1.0), RV::Num(2.0)];
+    for w in words(&ext, 2).into_iter().filter(|w| !w.is_empty()) {
+        for n in [4usize, 5, 7, 10] {
+            v.push(extend_periodic(&w, n));
+        }
+    }
+    v.push(vec![RV::Bool(true), RV::Bool(false)]);
+    v.push(vec![RV::List(vec![RV::Num(1.0), RV::Num(2.0)]), RV::List(vec![])]);
+    v
+}
+
+struct Pair {
+    a: String,
+    b: String,
+    kind: &'static str,
+}
+
+fn same(a: &Outcome, b: &Outcome) -> bool {
+    match (a, b) {
+        (Outcome::Ok(x), Outcome::Ok(y)) => x == y,
+        (Outcome::EvalError(_), Outcome::EvalError(_)) => true,
+        _ => false,
+    }
+}
+
+fn check_list(ctx: &Ctx, l: &[RV]) {
+    let mut sess = Session::new();
+    let o = sess.run(PRELUDE);
+    if !o.is_ok() {
+        ctx.machinery_error(format!("prelude failed: {:?}", o));
+        return;
+    }
+    let ls = RV::List(l.to_vec()).src();
+    let mut pairs: Vec<Pair> = vec![];
+    for f in unary_funcs() {
+        pairs.push(Pair { a: format!("{} via {}", ls, f.src), b: format!("map({}, {})", ls, f.src), kind: "via-map" });
+        pairs.push(Pair { a: format!("{} where {}", ls, f.src), b: format!("filter({}, {})", ls, f.src), kind: "where-filter" });
+        pairs.push(Pair { a: format!("{} into {}", ls, f.src), b: format!("{}({})", f.src, ls), kind: "into-apply" });
+        for x in l.iter().take(2) {
+            pairs.push(Pair { a: format!("{} into {}", x.src(), f.src), b: format!("{}({})", f.src, x.src()), kind: "into-apply" });
+        }
+        // explicit element/index passing: the unrolled map
+        if f.accepts[1] || f.accepts[2] {
+            let unrolled: Vec<String> = l
+                .iter()
+                .enumerate()
+                .map(|(i, x)| if f.accepts[2] { format!("{}({}, {})", f.src, x.src(), i) } else { format!("{}({})", f.src, x.src()) })
+                .collect();
+            pairs.push(Pair { a: format!("{} via {}", ls, f.src), b: format!("[{}]", unrolled.join(", ")), kind: "via-unrolled" });
+            pairs.push(Pair { a: format!("map({}, {})", ls, f.src), b: format!("[{}]", unrolled.join(", ")), kind: "map-unrolled" });
+        }
+    }
+    for g in fold_funcs() {
+        for z in ["0", "[]"] {
+            let mut acc = z.to_string();
+            for (i, x) in l.iter().enumerate() {
+                acc = if g.accepts[3] { format!("{}({}, {}, {})", g.src, acc, x.src(), i) } else { format!("{}({}, {})", g.src, acc, x.src()) };
+            }
+            if l.len() <= 6 {
+                pairs.push(Pair { a: format!("reduce({}, {}, {})", ls, g.src, z), b: acc, kind: "reduce-fold" });
+            }
+        }
+    }
+    for p in &pairs {
+        let oa = sess.run(&p.a);
+        let ob = sess.run(&p.b);
+        ctx.count(2);
+        ctx.nontrivial(&p.a);
+        ctx.outcome(&format!("{}-{}", p.kind, if oa.is_ok() { "ok" } else { "fail" }));
+        if !same(&oa, &ob) {
+            ctx.violation(Violation {
+                kind: p.kind.to_string(),
+                class: class_of(&p.a, &p.b),
+                input: format!("{}  <=>  {}", p.a, p.b),
+                expected: format!("{}", ob.cmp_key()),
+                observed: format!("{} ({})", oa.cmp_key(), match &oa { Outcome::EvalError(m) => m.as_str(), _ => "" }),
+                case: json!({"a": p.a, "b": p.b}),
+            });
+        }
+    }
+    // every / some vs the fold of the predicate's results, whenever the predicate succeeds everywhere
+    for f in unary_funcs() {
+        let mapped = sess.run(&format!("{} via {}", ls, f.src));
+        ctx.count(3);
+        if let Outcome::Ok(c) = &mapped {
+            let inner = c.trim_start_matches('[').trim_end_matches(']');
+            let items: Vec<&str> = if inner.is_empty() { vec![] } else { inner.split(", ").collect() };
+            if items.iter().all(|t| *t == "true" || *t == "false") && !c.contains("[[") {
+                let all = items.iter().all(|t| *t == "true");
+                let any = items.iter().any(|t| *t == "true");
+                let e = sess.run(&format!("every({}, {})", ls, f.src));
+                let s = sess.run(&format!("some({}, {})", ls, f.src));
+                ctx.outcome("every-some-checked");
+                if e != Outcome::Ok(all.to_string()) {
+                    ctx.violation(Violation {
+                        kind: "every".into(),
+                        class: f.src.to_string(),
+                        input: format!("every({}, {})", ls, f.src),
+                        expected: all.to_string(),
+                        observed: e.cmp_key(),
+                        case: json!({"a": format!("every({}, {})", ls, f.src), "b": all.to_string()}),
+                    });
+                }
+                if s != Outcome::Ok(any.to_string()) {
+                    ctx.violation(Violation {
+                        kind: "some".into(),
+                        class: f.src.to_string(),
+                        input: format!("some({}, {})", ls, f.src),
+                        expected: any.to_string(),
+                        observed: s.cmp_key(),
+                        case: json!({"a": format!("some({}, {})", ls, f.src), "b": any.to_string()}),
+                    });
+                }
+            }
+        }
+    }
+}
+
+/// syntactic class of a pair: which built-in form is involved and whether the callback is a
+/// named self-recursive function
+fn class_of(a: &str, b: &str) -> String {
+    let rec = ["fact", "count_down", "rec_pred", "rrec"];
+    let builtin = ["map(", "filter(", "reduce(", "every(", "some("].iter().find(|p| a.starts_with(**p) || b.starts_with(**p));
+    let is_rec = rec.iter().any(|r| a.contains(r) || b.contains(r));
+    format!("{}{}", builtin.map(|s| s.trim_end_matches('(')).unwrap_or("operator"), if is_rec { ":self-recursive-callback" } else { "" })
+}
+
+pub fn run(ctx: &Ctx, replay: Option<&J>) -> i32 {
+    if let Some(r) = replay {
+        let mut sess = Session::new();
+        sess.run(PRELUDE);
+        let a = r["case"]["a"].as_str().unwrap_or("");
+        let b = r["case"]["b"].as_str().unwrap_or("");
+        let (oa, ob) = (sess.run(a), sess.run(b));
+        println!("{} -> {:?}\n{} -> {:?}", a, oa, b, ob);
+        if !same(&oa, &ob) {
+            println!("VIOLATION property=C13 replay=<replayed>");
+            return 1;
+        }
+        return 0;
+    }
+    let ls = lists(!ctx.quick());
+    par_for(ls.len(), |i| check_list(ctx, &ls[i]));
+    ctx.set("lists", json!(ls.len()));
+    ctx.set("functions", json!(unary_funcs().iter().map(|f| f.src).collect::<Vec<_>>()));
+    ctx.sample(json!({"a": "[3, 1] via fact", "b": "map([3, 1], fact)"}));
+    ctx.sample(json!({"a": "[0, 1, 3] where idx_even", "b": "filter([0, 1, 3], idx_even)"}));
+    ctx.sample(json!({"a": "reduce([1, 3], r3, 0)", "b": "r3(r3(0, 1, 0), 3, 1)"}));
+    for k in ["via-map", "where-filter", "into-apply", "reduce-fold", "via-unrolled"] {
+        ctx.require_outcome(&format!("{}-ok", k), 50);
+        ctx.require_outcome(&format!("{}-fail", k), 50);
+    }
+    ctx.require_outcome("every-some-checked", 50);
+    finish(
+        ctx,
+        "exploration",
+        "every list (all words of length <= 3/4 over a 6-value alphabet plus periodic extensions to 10) x every function of a 32-entry pool (arity 1, 2, optional, rest, closures, curried, self-recursive, mutually recursive, built-ins of each arity class, non-functions) x the equivalent program pairs via/map, where/filter, into/application, unrolled element+index calls, reduce/unrolled fold, every/some vs fold of predicate results; both forms evaluated in the same session; distinct = distinct left-hand programs",
+        true,
+        None,
+    )
 }
